@@ -515,6 +515,14 @@ def clients_strategy(draw, nmax, nmins=(2, 2, 4, 7)):
   return clients
 
 
+@st.composite
+def large_population(draw):
+  n = draw(st.sampled_from([65, 66, 100, 129, 130]))
+  salt = draw(st.integers(0, 200))
+  return [{'id': (b'L%03d' % ((j * 7 + salt) % 1000) + (b'\x00' if j % 5 == 0 else b'')).hex()
+           + ('%02x' % (j % 256)), 'size': j % 3} for j in range(n)]
+
+
 def seed_strategy():
   return st.one_of(st.integers(0, 20), st.sampled_from(SEEDS),
                    st.integers(2**31, 2**32 - 1), st.integers(0, 2**32 - 1))
@@ -575,7 +583,11 @@ def history_strategy(draw, tier):
 def within_strategy(draw, tier):
   clients = draw(st.one_of(
       clients_strategy(12),
-      clients_strategy(40 if tier == 'quick' else 80, nmins=(13, 20, 30))))
+      clients_strategy(12),
+      clients_strategy(40 if tier == 'quick' else 80, nmins=(13, 20, 30)),
+      clients_strategy(40 if tier == 'quick' else 80, nmins=(13, 20, 30)),
+      # a population well beyond 64 clients (bulk reads in more than one chunk)
+      large_population()))
   n = len(clients)
   base = draw(round_strategy())
   rounds = draw(st.one_of(
